@@ -244,6 +244,29 @@ def norm_cache(F, rep, rid):
                 ok, detail="total force and Jacobian term would be weighted with the coefficients of the previous configuration", func=g.q)
     if n < 2:
         raise AnalysisBroken("%s: only %d functions that change components found" % (rid, n))
+    # the recomputation sums over the components its consumers sum over: enabled ones only
+    m = 0
+    for h in F.funcs.values():
+        if h.cls != "colvar" or h.ctor or h.name == "init" or "/src/" not in h.file:
+            continue
+        for w, t in lvalue_writes(h):
+            if X.key(t, h) != "this.active_cvc_square_norm" or w.get("op") != "+=":
+                continue
+            m += 1
+            res = X.const_locals(h)
+            from .rules_c03 import all_guards
+            gs = all_guards(h, w)
+            en = False
+            for cn, pol in gs:
+                for t in C.facts(h, cn, pol, res):
+                    if t[0] == "true" and "cvcs" in t[1] and "is_enabled" in t[1]:
+                        en = True
+            rep.add(rid, "%s|enabled-only" % h.q, h.loc(w), "%s adds a component's squared coefficient to the normalisation %s" % (
+                h.q, "only when that component is enabled" if en else "for EVERY component, enabled or not"), en,
+                detail="forces are applied to, and total forces collected from, the enabled components only: with a disabled component "
+                       "the measured total force is scaled by the wrong sum", func=h.q)
+    if m < 1:
+        raise AnalysisBroken("%s: no run-time recomputation of active_cvc_square_norm found" % rid)
 
 
 def run(F, rep, tier):
